@@ -9,10 +9,17 @@ E1 (bounded exhaustive inputs, all against mc/ref_c13.py):
             (list, tuple, generator, iter(list), set, frozenset, Basis), 6 functions; Av methods.
   pairs     all bases of <= 2 permutations of length <= 5 (thorough: 6) as list and iterator.
   subsets   every subset (any size) of a small pool, in both orders.
-  related   bases {p, r(p)} + completion for every p of length <= 6 (thorough 7), every related
+  related   bases {p, r(p)} + completion for every p of length <= 5 (thorough 7), every related
             element r(p) (7 symmetries, one-point deletions) and every class X, the completion chosen
             by the reference so that the verdict hinges on the pair: catches a per-call shortcut
             that derives the answer for one element from a related element of the same call.
+  forms     the same basis in every further argument form (map, reversed, chain, dict views, deque,
+            keyword argument), under every public name (PolyPerms.*, InsertionEncodablePerms.*),
+            through every way of building Av (iterators, from_iterable, from_string 0/1-based),
+            and with the library's own generators (Perm.of_length, Av.of_length, ...) as the basis.
+  abort     fault injection, bound 1: a BaseException at every call event inside one operation
+            (from fresh and warm memo tables), then every verdict on the same and the related bases
+            is read back on the same and on fresh objects.
   enum      implementation verdicts against the real counting sequence (reference levels to N).
   symmetry  the eight symmetries (reference point maps) on the implementation's verdict table.
   cli       permtools `poly` / `insenc` through the real argument parser (stdout captured), and a
@@ -146,7 +153,16 @@ def call(fn, kind, ps):
     L = lib()
     try:
         if fn.startswith("av_"):
-            av = L["Av"](container(kind, ps))
+            if kind == "from_iterable":
+                av = L["Av"].from_iterable(x for x in ps)
+            elif kind in ("from_string0", "from_string1"):
+                av = L["Av"].from_string(basis_string(ps, int(kind[-1])))
+            elif kind == "Basis.from_string":
+                av = L["Av"](L["Basis"].from_string(basis_string(ps, 1)))
+            elif kind == "kw":
+                av = L["Av"](basis=list(ps))
+            else:
+                av = L["Av"](container(kind, ps))
             got = {"av_finite": av.is_finite, "av_poly": av.is_polynomial,
                    "av_insenc": av.is_insertion_encodable}[fn]()
         elif kind == "kw":
@@ -868,6 +884,203 @@ def shard_fresh(shard):
 
 
 # --------------------------------------------------------------------------------------------
+# FORMS: every argument form and every public name of the same functionality
+# --------------------------------------------------------------------------------------------
+
+FORM_KINDS = ["map", "reversed", "chain", "dictkeys", "dictvalues", "deque", "kw"]
+AV_ROUTES = ["iter", "gen", "map", "deque", "frozenset", "from_iterable", "from_string0", "from_string1",
+             "Basis.from_string", "kw"]
+
+
+def check_forms(part, S):
+    v = F.verdicts(S)
+    n = 0
+    seqs = [tuple(S)]
+    if len(S) > 1:
+        seqs.append(tuple(reversed(S)))
+    if S:
+        seqs.append(tuple(S) + tuple(S[:1]))
+    for seq in seqs:
+        for kind in rot(FORM_KINDS):
+            for fn in rot(FUNCS):
+                check_call(part, "forms", fn, kind, seq, v)
+                n += 1
+        for fn in FUNCS:
+            for kind in ("list", "gen"):
+                check_call(part, "forms", "cls:" + fn, kind, seq, v)
+                n += 1
+    if S and all(len(p) >= 1 for p in S):
+        for seq in seqs[:2]:
+            for kind in AV_ROUTES:
+                for fn in ("av_finite", "av_poly", "av_insenc"):
+                    check_call(part, "forms", fn, kind, seq, v)
+                    n += 1
+    part.add(n, 1 if hinge(S, v) else 0)
+
+
+def shard_forms(shard):
+    lo, hi = shard
+    part = Partial()
+    for S in BASES[lo:hi]:
+        check_forms(part, S)
+    return part
+
+
+def libgen_cases():
+    """(description, maker of a one-shot iterator from the library's own generator helpers)."""
+    L = lib()
+    Perm, Av = L["Perm"], L["Av"]
+    out = []
+    for n in range(0, 5):
+        out.append((["Perm.of_length", n], lambda n=n: Perm.of_length(n)))
+    for n in range(0, 4):
+        out.append((["Perm.up_to_length", n], lambda n=n: Perm.up_to_length(n)))
+    for b in R.bases(2, 3):
+        for n in range(0, 5):
+            out.append((["Av.of_length", list(b), n],
+                        lambda b=b, n=n: Av([Perm(x) for x in b]).of_length(n)))
+        for n in range(0, 4):
+            out.append((["Av.up_to_length", list(b), n],
+                        lambda b=b, n=n: Av([Perm(x) for x in b]).up_to_length(n)))
+    return out
+
+
+def check_libgen(part, desc, make):
+    """The library's own generators handed over as the basis: the reference verdict is taken for
+    the permutations the generator yields (their correctness is C02/C09), the form is the point."""
+    L = lib()
+    try:
+        content = tuple(tuple(p) for p in make())
+    except Exception as exc:  # noqa
+        part.violation("forms", {"libgen": desc, "fn": "(enumerating the helper)"}, {"exception": repr(exc)})
+        return
+    v = F.verdicts(content)
+    for fn in FUNCS:
+        try:
+            got = L[fn](make())
+        except Exception as exc:  # noqa
+            got = "exception: %r" % (exc,)
+        if differs(got, expected(fn, v)):
+            part.violation("forms", {"libgen": desc, "fn": fn},
+                           {"yielded": content, "expected": expected(fn, v), "got": got})
+        part.add(1, 0)
+
+
+def shard_libgen(shard):
+    lo, hi = shard
+    part = Partial()
+    for desc, make in libgen_cases()[lo:hi]:
+        check_libgen(part, desc, make)
+    return part
+
+
+# --------------------------------------------------------------------------------------------
+# ABORT: an exception injected at the k-th call event inside one operation, then read back
+# --------------------------------------------------------------------------------------------
+
+class _Abort(BaseException):
+    pass
+
+
+def _run_with_abort(fn, k, root):
+    """Run fn(); raise _Abort at the k-th 'call' event of a frame whose code lives under root
+    (k=None: never).  Returns (finished?, number of such events seen)."""
+    seen = [0]
+
+    def tracer(frame, event, arg):
+        if event == "call" and frame.f_code.co_filename.startswith(root):
+            seen[0] += 1
+            if seen[0] == k:
+                sys.settrace(None)
+                raise _Abort()
+        return None
+
+    sys.settrace(tracer)
+    try:
+        fn()
+        return True, seen[0]
+    except _Abort:
+        return False, seen[0]
+    finally:
+        sys.settrace(None)
+
+
+ABORT_OPS = [(fn, kind) for fn in FUNCS for kind in ("list", "iter")] + \
+            [(fn, "list") for fn in ("av_finite", "av_poly", "av_insenc")]
+
+
+def abort_case(part, model, wi, op, k, root):
+    """Reset, warm, run op with an abort at call event k (None: undisturbed), read everything back.
+    Returns the number of call events seen."""
+    import signal
+    L = lib()
+    Perm = L["Perm"]
+    fn, bi, kind = op
+    run_history(model.bases, warm_histories(model)[wi])
+    objs = [[Perm(p) for p in b] for b in model.bases]       # the objects the aborted call sees
+    finished, seen = _run_with_abort(lambda: call(fn, kind, objs[bi]), k, root)
+    if k is None:
+        return seen
+    case = {"bases": model.bases, "warm": wi, "op": [fn, bi, kind], "abort_at_call": k}
+    signal.alarm(30)
+    try:
+        bad = None
+        for rb, b in enumerate(model.bases):
+            for same in (True, False):
+                ps = objs[rb] if same else [Perm(p) for p in b]
+                for rfn in FUNCS + (["av_finite", "av_poly", "av_insenc"]
+                                    if rb == bi and b and all(len(p) for p in b) else []):
+                    got = call(rfn, "list", ps)
+                    if differs(got, expected(rfn, model.exp[rb])):
+                        bad = {"read_back": [rfn, rb, "same objects" if same else "fresh equal objects"],
+                               "basis": b, "expected": expected(rfn, model.exp[rb]), "got": got,
+                               "aborted_call_finished": finished}
+                        break
+                if bad:
+                    break
+            if bad:
+                break
+    except TimeoutError as exc:
+        bad = {"hang": str(exc)}
+    finally:
+        signal.alarm(0)
+    if bad:
+        part.violation("abort", case, bad)
+    part.add(1, 0 if finished else 1)
+    return seen
+
+
+def shard_abort(shard):
+    import signal
+    fi, bases, wi, bi = shard
+    part = Partial()
+    model = HistoryModel(bases)
+    root = os.path.join(os.path.abspath(REPO), "permuta") + os.sep
+
+    def on_alarm(signum, frame):
+        raise TimeoutError("read-back did not finish within 30 s")
+
+    old = signal.signal(signal.SIGALRM, on_alarm)
+    old_hook = sys.unraisablehook
+    sys.unraisablehook = lambda unraisable: None
+    points = 0
+    try:
+        for fn, kind in ABORT_OPS:
+            if fn.startswith("av_") and not (bases[bi] and all(len(p) for p in bases[bi])):
+                continue
+            op = (fn, bi, kind)
+            total = abort_case(part, model, wi, op, None, root)
+            points += total
+            for k in range(1, total + 1):
+                abort_case(part, model, wi, op, k, root)
+    finally:
+        signal.signal(signal.SIGALRM, old)
+        sys.unraisablehook = old_hook
+    part.bump("abort_points", points)
+    return part
+
+
+# --------------------------------------------------------------------------------------------
 
 def chunk(n, per):
     return [(lo, min(n, lo + per)) for lo in range(0, n, per)]
@@ -956,7 +1169,7 @@ def run(ctx, only=None):
         ctx.section("subsets", evaluations=ctx.evals - e0)
     if want("related"):
         e0 = ctx.evals
-        L = 6 if quick else 7
+        L = 5 if quick else 7
         per = {1: 1, 2: 2, 3: 3, 4: 4, 5: 4, 6: 8, 7: 24}
         shards = [(n, lo, hi) for n in range(1, L + 1) for lo, hi in chunk(_fact(n), per[n])]
         ctx.pmap(shard_related, shards)
@@ -1002,6 +1215,39 @@ def run(ctx, only=None):
                              "0-based '_' and 1-based ':' spelling; %d runs of permuta.cli.main in a fresh "
                              "interpreter" % len(shards))
         ctx.section("cli", evaluations=ctx.evals - e0)
+    if want("forms"):
+        e0 = ctx.evals
+        nf = len(BASES) if not quick else 1 + sum(1 for b in BASES[1:6018] if len(b) <= 2)
+        extra = [] if not quick else chunk(len(BASES), 40)[-1:]      # the bases with the empty perm
+        ctx.pmap(shard_forms, chunk(nf, 40) + extra)
+        ng = len(libgen_cases())
+        ctx.pmap(shard_libgen, chunk(ng, 40))
+        ctx.bounds["forms"] = {
+            "bases": "Bases(%d,4) + empty basis + bases with the empty permutation" % (2 if quick else 3),
+            "sequences": "sorted, reversed, with the first element repeated",
+            "forms": FORM_KINDS + ["(kw = keyword argument basis=...)"],
+            "names": "PolyPerms.* / InsertionEncodablePerms.* / permutils.finite.is_finite (list, generator)",
+            "Av routes": AV_ROUTES,
+            "library generators as basis": "%d: Perm.of_length(0..4), Perm.up_to_length(0..3), "
+                                           "Av(b).of_length(0..4), Av(b).up_to_length(0..3) for b in Bases(2,3)" % ng}
+        ctx.section("forms", evaluations=ctx.evals - e0)
+    if want("abort"):
+        e0 = ctx.evals
+        fams = families()
+        warms = (0, 1) if quick else (0, 1, 2)
+        shards = [(fi, fam, wi, bi) for wi in warms for fi, fam in enumerate(fams)
+                  for bi in range(len(fam))]
+        ctx.pmap(shard_abort, shards)
+        ctx.traces += ctx.evals - e0
+        ctx.bounds["abort"] = {
+            "operations": "each of %d (function, container) operations on each basis of the %d history "
+                          "families, from %d initial memo states" % (len(ABORT_OPS), len(fams), len(warms)),
+            "injection": "a BaseException at EVERY call event (frames under permuta/) of the operation",
+            "injection_points": ctx.counters.get("abort_points", 0),
+            "read_back": "all 6 functions on all 6 bases of the family (+ the 3 Av methods on the basis of "
+                         "the aborted call), on the objects the aborted call saw and on fresh equal "
+                         "objects, against the reference"}
+        ctx.section("abort", evaluations=ctx.evals - e0, injection_points=ctx.counters.get("abort_points", 0))
     if want("history"):
         depth = 3 if quick else 4
         fams = families()
@@ -1055,9 +1301,27 @@ def replay(ctx, rec):
     if sub == "types":
         CONTEXTS = F.probe_contexts()
         check_type_case(ctx, tuple(case["perm"]), case["kind"], case["class"], case["pos"])
-    elif sub in ("bases", "pairs", "subsets", "av", "related"):
+    elif sub == "forms" and "libgen" in case:
+        for desc, make in libgen_cases():
+            if json.loads(json.dumps(desc)) == case["libgen"]:
+                check_libgen(ctx, desc, make)
+    elif sub in ("bases", "pairs", "subsets", "av", "related", "forms"):
         seq = _tt(case["seq"])
         check_call(ctx, sub, case["fn"], case["container"], seq, F.verdicts(seq))
+    elif sub == "abort":
+        import signal
+
+        def on_alarm(signum, frame):
+            raise TimeoutError("read-back did not finish within 30 s")
+        old = signal.signal(signal.SIGALRM, on_alarm)
+        hook, sys.unraisablehook = sys.unraisablehook, (lambda unraisable: None)
+        try:
+            model = HistoryModel([_tt(b) for b in case["bases"]])
+            root = os.path.join(os.path.abspath(REPO), "permuta") + os.sep
+            abort_case(ctx, model, case["warm"], tuple(case["op"]), case["abort_at_call"], root)
+        finally:
+            signal.signal(signal.SIGALRM, old)
+            sys.unraisablehook = hook
     elif sub == "enum":
         S = _tt(case["basis"])
         N = max(int(case["n"]), 6)
